@@ -58,6 +58,7 @@ EmptyEp(nch) ==
     expDel |-> <<>>,          \* deliveries the model expects the hooks to report: <<[ch, len]>>
     setupRx |-> FALSE,        \* a set-up chunk was received while Connected (until the next snap)
     snapNext |-> 0, snapCum |-> 0, snapTag |-> 0, hasSnap |-> FALSE,
+    slackQ |-> 0, slackU |-> 0,   \* differences to the logged queue sizes already reported
     tag    |-> 0 ]            \* own initiate tag (index), 0 = not announced yet
 \* Submitted messages are not copied: `subidx` (given by the reset event) lists, per side and
 \* channel, the trace positions of the submit events in submission order; message j of (side, channel)
@@ -268,16 +269,34 @@ Snap ==
                                                   cum |-> Ev.cum, wascum |-> e.snapCum])
          x3 == ChkX(x2, Ev.at # "rx" \/ e.expDel = <<>>, "DeliverMatchesModel",
                     [side |-> s, missing |-> Len(e.expDel)])
+         \* The sender may stop keeping (or stop retransmitting) a chunk only if a SACK it processed covers
+         \* it: at or below that SACK's cumulative TSN, or inside one of its gap blocks taken relative to
+         \* that SACK's own cumulative TSN.  The monitor's queue `sq` is the logged tx events minus exactly
+         \* that coverage (ApplySack), so the implementation's queue may be larger (it may ignore a stale
+         \* SACK) but never smaller.  Without this the property cannot hold for every fault history: a
+         \* chunk dropped from the queue unacknowledged is lost for good if its copies in flight are lost.
+         \* (Associations with partially reliable channels drop chunks by abandonment as well: skipped.)
+         allRel == \A c \in 1..NCh : chans[c].rel
+         mQueued == Cardinality(e.sq)
+         mUnacked == Cardinality({y \in e.sq : ~y.acked})
+         covered == ~allRel \/ (Ev.sentq + e.slackQ >= mQueued /\ Ev.unacked + e.slackU >= mUnacked)
+         Gap(a, b) == IF a > b THEN a - b ELSE 0
          r2 == IF e.rx.has /\ Ev.at = "rx" /\ e.rx.cum # Ev.cum
                THEN [e.rx EXCEPT !.cum = Ev.cum, !.rcvd = {x \in @ : TsnGT(x.tsn, Ev.cum)}]
                ELSE e.rx
      IN /\ ext' = x3
+        /\ bad' = Chk(bad, covered, "C01", "AckedOnlyIfCovered",
+                      [side |-> s, at |-> Ev.at, queued |-> Ev.sentq, unacked |-> Ev.unacked,
+                       justified_queued |-> mQueued, justified_unacked |-> mUnacked])
+        \* one wrong step is reported once: the difference it left behind is tolerated from then on
         /\ ep' = [ep EXCEPT ![s].rx = r2, ![s].st = Ev.st,
+                            ![s].slackQ = IF covered THEN @ ELSE Gap(mQueued, Ev.sentq),
+                            ![s].slackU = IF covered THEN @ ELSE Gap(mUnacked, Ev.unacked),
                             ![s].setupRx = IF Ev.at = "rx" THEN FALSE ELSE @,
                             ![s].expDel = IF Ev.at = "rx" THEN <<>> ELSE @,
                             ![s].snapNext = Ev.next, ![s].snapCum = Ev.cum, ![s].snapTag = Ev.mytag,
                             ![s].hasSnap = TRUE]
-  /\ UNCHANGED <<sc, chans, subidx, app, quiet, bad>> /\ Adv
+  /\ UNCHANGED <<sc, chans, subidx, app, quiet>> /\ Adv
 
 ---------------------------------------------------------------------------
 (* The proxy's view of the wire: every SCTP packet a sender emitted (C13)  *)
